@@ -1,9 +1,10 @@
 import RedisGoModel.Exec.StringKeys
+import RedisGoModel.Exec.Set
 /-! Command table and dispatch (`server.Manager.ExecCommand`: lower-cased command name, table lookup). -/
 namespace Exec
 open Resp (Reply Bytes)
 
-def cmdTable : List (String × Cmd) := stringKeyTable
+def cmdTable : List (String × Cmd) := stringKeyTable ++ setTable
 
 def lookupCmd (name : Bytes) : Option Cmd :=
   (cmdTable.find? fun p => ofStr p.1 == name).map (·.2)
@@ -17,7 +18,7 @@ def exec (env : Env) (db : Db) (args : List Bytes) : Reply × Db :=
     | none => (.err (ofStr "ERR unknown command"), db)
 
 /-- replies whose element order depends on Go map iteration are compared after sorting -/
-def unorderedCmds : List String := ["keys"]
+def unorderedCmds : List String := ["keys", "smembers", "sunion", "sinter", "sdiff"]
 
 def sortReplies (l : List Reply) : List Reply :=
   sortBy (fun a b => bytesLt (Resp.encode a) (Resp.encode b)) l
